@@ -166,6 +166,8 @@ type World struct {
 	pendMu   sync.Mutex
 	concOnce sync.Once
 	cs       *concState
+	// Runaway is set when the store's growth guard fired: some object keeps growing; the run stops.
+	Runaway string
 	// OnOutcome, if set, is called (under mu) with the outcome of every reconcile.
 	OnOutcome func(*Outcome)
 	// Concurrent switches off the per-reconcile bookkeeping that assumes one reconcile at a time (alias tracking).
@@ -266,7 +268,7 @@ func (w *World) buildControllers() {
 	tc.Bindings = append(tc.Bindings, binding{gk: schema.GroupKind{Group: "rollouts.kruise.io", Kind: "TrafficRouting"}, handler: &handler.EnqueueRequestForObject{}})
 	w.Ctrls = append(w.Ctrls, tc)
 
-	for _, f := range w.ExtraControllers {
+	for _, f := range append(append([]func(w *World) *Controller{}, ExtraControllerFactories...), w.ExtraControllers...) {
 		if c := f(w); c != nil {
 			w.Ctrls = append(w.Ctrls, c)
 		}
@@ -279,6 +281,9 @@ func nilIfEmpty(m map[string]string) interface{} {
 	}
 	return m
 }
+
+// ExtraControllerFactories are plug-ins (registered from init functions) that add more real controllers to every world.
+var ExtraControllerFactories []func(w *World) *Controller
 
 // NewExtraController is used by plug-ins to create a controller shell bound to this world.
 func (w *World) NewExtraController(name, actor string) *Controller {
@@ -403,6 +408,12 @@ func (w *World) runReconcile(c *Controller, k types.NamespacedName, before int) 
 			if p := recover(); p != nil {
 				if _, ok := p.(simapi.CrashSignal); ok {
 					out.Crashed = true
+					return
+				}
+				if rg, ok := p.(simapi.RunawayGrowth); ok {
+					w.mu.Lock()
+					w.Runaway = rg.Msg
+					w.mu.Unlock()
 					return
 				}
 				out.Panic = fmt.Sprint(p)
